@@ -13,7 +13,7 @@ def publish_request(request: Ref['mqtt.pdu.PUBLISH']) -> bool:
     """the request object as built by MQTTProtocol.publish() from its arguments"""
     return (is_int(request.qos) and is_str(request.topic) and is_bool(request.retain) and request.dup == False
             and is_bool(request.dup) and is_none(request.msgId) and is_none(request.encoded)
-            and is_unset(request.alarm) and is_unset(request.deferred) and is_unset(request.g_base)
+            and is_unset(request.alarm) and is_unset(request.deferred) and is_unset(request.g_base) and is_unset(request.g_addr)
             and (is_str(request.payload) or is_bytes(request.payload) or is_int(request.payload) or is_none(request.payload)
                  or is_real(request.payload) or is_bool(request.payload)))
 
@@ -84,4 +84,5 @@ def _():
 @ghost_at('mqtt.client.pubsubs.MQTTProtocol.doPublish', after='request.encode()')
 def _():
     gset(request.g_base, as_bytes(request.encoded))
+    gset(request.g_addr, self.addr)
     hint(dup_clear(as_bytes(request.encoded)))      # a freshly encoded PUBLISH (dup False) has the flag clear
